@@ -331,6 +331,10 @@ class LoopMachine(Machine):
             pass
         loop_eff = ('loop', lid, tuple(sorted(iter_traces, key=repr)))
         outs = []
+        if len(exitf) > 1:
+            # keep the reason for leaving the loop (which conjunct of the condition failed) distinguishable
+            for n_, s2 in enumerate(exitf):
+                s2.tags['exit:' + lid] = n_
         for s2 in exitf:
             s2.trace = base_trace + ((loop_eff,) if iter_traces and any(iter_traces) else ())
             outs.append((s2, None))
